@@ -115,6 +115,28 @@ FamPlace(CAP, SP, C3, CH) ==
       d \in {<<>>, <<<<1, 2, "FS">>>>, <<<<1, 3, "FS">>>>},
       cap \in [1..2 -> CAP], sp \in [1..2 -> SP], inp \in {<<>>, <<1>>}, ch \in CH }
 
+\* ---- FamConveyor: components waiting for a busy facility, three workplaces, conveyor links ----
+\* two single-task components compete for one facility per workplace; a component that waits
+\* (placed, task READY) is re-placed every step, so capacity, ranking and conveyor rules interact
+FamConveyor(WL, CAP1) ==
+  { Cfg("conv", 1,
+        << [Task(w1, 0, FALSE, 1, TRUE, 1, <<1>>, l1, 0) EXCEPT !.prule = pr],
+           [Task(1, 0, FALSE, 1, TRUE, 2, <<1>>, l2, 1) EXCEPT !.prule = pr],
+           \* a third component that occupies workplace 3 for two steps and then leaves
+           [Task(2, 0, FALSE, 1, TRUE, 3, <<1>>, <<3>>, 2) EXCEPT !.prule = pr] >>,
+        <<>>, 1,
+        << Worker(1, <<1, 1, 1>>, <<1, 1, 1>>, 1, FALSE, <<>>, 0),
+           Worker(1, <<1, 1, 1>>, <<1, 1, 1>>, 1, FALSE, <<>>, 0),
+           Worker(1, <<1, 1, 1>>, <<1, 1, 1>>, 1, FALSE, <<>>, 0) >>,
+        << Facility(1, <<1, 1, 1>>, 1, FALSE, <<>>), Facility(2, <<1, 1, 1>>, 1, FALSE, <<>>),
+           Facility(3, <<1, 1, 1>>, 1, FALSE, <<>>) >>,
+        << [cap |-> c1, inputs |-> <<>>], [cap |-> 2, inputs |-> in2], [cap |-> 2, inputs |-> in3] >>,
+        << [space |-> 2, children |-> <<>>], [space |-> 2, children |-> <<>>],
+           [space |-> 2, children |-> <<>>] >>,
+        Opt(<<>>, FALSE, "TSLACK", 12))
+    : w1 \in {3, 4}, l1 \in WL, l2 \in WL, pr \in {"FSS", "SSP"}, c1 \in CAP1,
+      in2 \in {<<>>, <<1>>}, in3 \in {<<>>, <<2>>, <<1>>} }
+
 \* ---- FamSort: inputs of the four sorting functions ---------------------------------------
 \* A sort case is a small cfg (only the lists the function looks at are populated), the
 \* function, the rule mode, the task whose name is passed (t) and the target workplace (p),
@@ -237,13 +259,16 @@ Family(name, tier) ==
                          THEN FamAbsence({<<>>, <<0>>, <<1, 2>>, <<0, 3, 30>>})
                          ELSE FamAbsence({<<>>, <<0>>, <<1>>, <<1, 2>>, <<0, 1, 2>>, <<2, 4>>,
                                           <<0, 3, 30>>, <<5, 6, 7>>})
+    [] name = "conveyor" -> IF tier = 1
+                            THEN FamConveyor({<<1, 3>>, <<3, 1>>, <<1, 2, 3>>, <<2, 3>>}, {2, 4})
+                            ELSE FamConveyor({<<1, 3>>, <<3, 1>>, <<1, 2, 3>>, <<3, 2, 1>>, <<2, 3>>, <<1, 2>>, <<1>>}, {2, 3, 4})
     [] name = "sub"   -> IF tier = 1 THEN FamSub({1, 2, 3, 5, 60}, {<<>>, <<1>>})
                          ELSE FamSub({1, 2, 3, 5, 7, 60}, {<<>>, <<1>>, <<0, 2>>, <<3, 4>>})
     [] name = "pert"  -> IF tier = 1 THEN FamPert(3, {0, 1, 2}) \cup FamPert(4, {1, 2})
                          ELSE FamPert(4, {0, 1, 2}) \cup FamPert(5, {1})
     [] name = "place" -> IF tier = 1 THEN FamPlace({2, 3}, {1, 2}, {0, 1, 2}, {<<>>, <<2>>})
                          ELSE FamPlace({2, 3, 4}, {1, 2}, {0, 1, 2}, {<<>>, <<2>>})
-    \* flat products whose components carry one task each (no known placement finding applies)
-    [] name = "placeflat" -> IF tier = 1 THEN FamPlace({2, 3}, {1, 2}, {0}, {<<>>})
-                             ELSE FamPlace({1, 2, 3, 4}, {1, 2, 3}, {0}, {<<>>})
+    \* flat products (no known placement finding applies), components with one or two tasks
+    [] name = "placeflat" -> IF tier = 1 THEN FamPlace({2, 3}, {1, 2}, {0, 1, 2}, {<<>>})
+                             ELSE FamPlace({1, 2, 3, 4}, {1, 2, 3}, {0, 1, 2}, {<<>>})
 =============================================================================
